@@ -168,7 +168,7 @@ func c09Name(form int, abs string, referrer string, kind int) (rj.Expr, bool) {
 
 var c09Referrers = []string{"/t.jet", "/sub/t.jet", "/sub/deep/t.jet"}
 
-func c09Build(kind, site1, site2, ctx, nameForm, ref, callee int) *rj.Program {
+func c09Build(kind, site1, site2, ctx, nameForm, ref, callee int, site3 ...int) *rj.Program {
 	referrer := c09Referrers[ref]
 	nameX, ok := c09Name(nameForm, "/sub/c.jet", referrer, kind)
 	if !ok {
@@ -196,6 +196,9 @@ func c09Build(kind, site1, site2, ctx, nameForm, ref, callee int) *rj.Program {
 		call = []rj.Stmt{rj.T("("), &rj.If{Cond: &rj.IncIf{Name: nameX, Ctx: ctxX}, Then: []rj.Stmt{rj.T("+yes")}, HasElse: true, Else: []rj.Stmt{rj.T("+no")}}, rj.T(")")}
 	}
 	var extra []*rj.File
+	if len(site3) > 0 {
+		call = c09Site(site3[0], call, &extra, 3)
+	}
 	body := c09Site(site1, c09Site(site2, call, &extra, 2), &extra, 1)
 	// the caller's own state, probed after the call
 	pre := []rj.Stmt{rj.Let("cv", rj.S("caller")), &rj.BlockDef{Name: "CB", Body: []rj.Stmt{rj.T("caller-CB")}}, &rj.BlockDef{Name: "CALLERONLY", Body: []rj.Stmt{rj.T("only")}}, rj.T("|")}
@@ -216,12 +219,19 @@ func c09Build(kind, site1, site2, ctx, nameForm, ref, callee int) *rj.Program {
 var c09Space = registerSpace(&e1Space{
 	Prop: "C09", Name: "calls",
 	N: func(th bool) int64 {
-		return 5 * c09NSites * c09NSites * 3 * c09NNames * 3 * c09NCallee
+		n := int64(5 * c09NSites * c09NSites * 3 * c09NNames * 3 * c09NCallee)
+		if th {
+			n *= c09NSites // call sites nested three deep
+		}
+		return n
 	},
 	Gen: func(i int64, th bool) *rj.Program {
-		ix := core.Radix(i, 5, c09NSites, c09NSites, 3, c09NNames, 3, c09NCallee)
+		ix := core.Radix(i, 5, c09NSites, c09NSites, 3, c09NNames, 3, c09NCallee, c09NSites)
 		if ix[3] == 2 && (ix[4] != 0 || ix[5] != 0) {
 			return nil // the nil context only with the absolute name from the root referrer
+		}
+		if th {
+			return c09Build(ix[0], ix[1], ix[2], ix[3], ix[4], ix[5], ix[6], ix[7])
 		}
 		return c09Build(ix[0], ix[1], ix[2], ix[3], ix[4], ix[5], ix[6])
 	},
